@@ -359,7 +359,7 @@ func init() {
 			}
 			return
 		}
-		n := 8
+		n := 6
 		if !c.Quick() {
 			n = 60
 		}
